@@ -6,6 +6,7 @@ mod c01;
 mod c04;
 mod c10;
 mod c12;
+mod c20;
 
 fn main() {
   let args: Vec<String> = std::env::args().collect();
@@ -59,6 +60,8 @@ fn main() {
     ("C10", None) => c10::run(&tier),
     ("C10", Some(d)) => c10::replay(&d),
     ("C12", None) => c12::run(&tier),
+    ("C20", None) => c20::run(&tier),
+    ("C20", Some(d)) => c20::replay(&d),
     ("C12", Some(d)) => c12::replay(&d),
     _ => {
       eprintln!("no check for {id} in this build");
